@@ -126,6 +126,7 @@ fn replay_file(engine: &str, prop: &str, tier: &str, master: u64, index: u64, se
         note: String::new(),
         worker: None,
         prelude: false,
+        build: common::BUILD.to_string(),
     }
 }
 
@@ -331,6 +332,10 @@ fn same_class(v: &Violation, e: &Violation) -> bool {
 
 fn cmd_replay(path: &str) -> i32 {
     let (rf, scn) = load_replay(path);
+    if rf.build != common::BUILD {
+        eprintln!("{} was written by the {:?} build of the simulator, this is the {:?} build", path, rf.build, common::BUILD);
+        return 2;
+    }
     common::install_panic_hook();
     // supervision only: lets the driver tell a replay that is slow from one that is stuck
     if let Ok(hb) = std::env::var("TERASIM_HB") {
